@@ -147,7 +147,8 @@ def main() -> int:
             print(f"replay held: property={prop} {args.replay}")
         return 1 if ctx.violations else 0
 
-    outdir = os.path.join(ROOT, "out", prop)
+    # (runs against a scratch tree - tools/run_seeded.sh - keep their output and evidence out of the registered locations)
+    outdir = os.path.join(os.environ.get("VERIF_OUT_BASE") or os.path.join(ROOT, "out"), prop)
     workdir = os.path.join(outdir, "shards")
     shutil.rmtree(workdir, ignore_errors=True)
     os.makedirs(workdir, exist_ok=True)
@@ -235,8 +236,9 @@ def main() -> int:
         "wall_s": round(time.time() - t0, 1),
         "violations": len(by_sig),
     }
-    os.makedirs(os.path.join(ROOT, "evidence"), exist_ok=True)
-    with open(os.path.join(ROOT, "evidence", f"{prop}.json"), "w") as fd:
+    evidence_dir = os.environ.get("VERIF_EVIDENCE_DIR") or os.path.join(ROOT, "evidence")
+    os.makedirs(evidence_dir, exist_ok=True)
+    with open(os.path.join(evidence_dir, f"{prop}.json"), "w") as fd:
         json.dump(evidence, fd, indent=1, sort_keys=True)
 
     # ---- report -----------------------------------------------------------------------------------------------
